@@ -136,6 +136,11 @@ ListTypes == {"bullet_list_open", "ordered_list_open"}
 CertainlyClosed == {"paragraph_open", "heading_open", "hr", "blockquote_open", "bullet_list_open",
                     "ordered_list_open", "code_block", "table_open"}
 
+(* shape of a stream: everything but line ranges and text (a blank line may lengthen a container's range or the
+   content of an unclosed verbatim block inside it) *)
+Shape(ts) == [i \in DOMAIN ts |-> [ts[i] EXCEPT !.map = <<>>, !.c = "", !.cl = "", !.kids = "", !.info = ""]]
+NoMapDiff(o, p) == SeqDiff(Shape(o), Shape(p), FALSE)
+
 ConcatLaw ==
     LET A1 == Tr.a1 AP == Tr.ap B == Tr.base AB == Tr.der
         nA == Len(A1.lines) \* lines of A + "\n" (incl. the separating blank line)
@@ -152,6 +157,9 @@ ConcatLaw ==
          \* stay open), so an A of that kind that swallows or alters the probe IS the leak C07 forbids.
          (IF LastTopOpen(A1.toks) \in CertainlyClosed THEN "closed_block_captures_following_paragraph"
           ELSE "skip:A_not_closed")
+    \* the separating blank line itself: appended to a CLOSED A alone it may stretch line ranges and verbatim content,
+    \* nothing else (no block appears, disappears, or changes its tight / loose flags because a blank line follows)
+    ELSE IF NoMapDiff(Tr.a0.toks, A1.toks) # "" THEN "blank_line_after_A_changes_its_blocks:" \o NoMapDiff(Tr.a0.toks, A1.toks)
     ELSE IF LastTopOpen(A1.toks) \in ListTypes /\ FirstTy(B.toks) \in ListTypes THEN "skip:list_list_seam"
     ELSE IF LastTopOpen(A1.toks) = "code_block" /\ FirstTy(B.toks) = "code_block" THEN "skip:code_code_seam"
     ELSE LET d == SeqDiff(AB.toks, A1.toks \o Shift(B.toks, nA), FALSE) IN
